@@ -272,7 +272,7 @@ class FormatMachine(MachineBase):
         self.count("C08", ["canon", self.FORMAT, self.abstract(s)])
         self.file_invariants(s, text, op)
         # an object the model calls UNSPECIFIED has no round-trip oracle either
-        exp_now = None if (s.tainted or verdict == UNSPEC) else self.expected_loaded(s)
+        exp_now = None if (s.tainted or (verdict == UNSPEC and not self.keeps_roundtrip_oracle(why))) else self.expected_loaded(s)
         self.durable[path] = {"expected": exp_now, "bytes": after, "clean": True,
                               "kw": dict((k, op[k]) for k in ("main_variant",) if k in op)}
         if exp_now is not None and self.order_ambiguous(exp_now):
@@ -903,6 +903,11 @@ class FormatMachine(MachineBase):
 
     def model_from_observation(self, obs):
         return copy.deepcopy(obs)
+
+    def keeps_roundtrip_oracle(self, why):
+        """an object the model calls UNSPECIFIED (it may be written or refused) normally has no round-trip oracle; for some
+        reasons it has: IF the library agrees to write it, it reads it back"""
+        return False
 
     def prop_for_invalid(self, why):
         """which property reports an invalid object that got written (C06, unless another property states the same rule and
